@@ -1,4 +1,410 @@
-import GristModel.DocSpec
+/-
+C01 stage (i) / C04 algebra: undo-correctness of the doc actions (DocActions.* in
+sandbox/grist/docactions.py), as modelled by GristModel/Doc.lean, Engine.lean, DocSpec.lean.
+
+Property theorems only; the proofs are in GristProofs/DocUndo*.lean.
+
+Extra hypotheses that turned out to be necessary (the statements with `WF` alone are false):
+ * `Normal d`   every stored cell is a fixed point of its column's `Column.set` normalisation
+                (`colSet`).  All cells the doc actions write are; `WF` does not say so.  Without it a
+                Numeric column holding `int 5` comes back from BulkUpdate+undo as `flt "5.0"`.
+ * `a.colsDistinct`  an AddTable names each column once (the model keeps duplicates, which breaks
+                `Table.WF`).
+ * `a.undoExact d`   ReplaceTableData / RemoveColumn do not restore non-default FORMULA columns,
+                ModifyColumn restores cells only up to `colSet old (colSet new v)`.
+-/
+import GristProofs.DocUndoAll
 namespace Grist.Doc
-theorem placeholder_C01 : True := trivial
+
+/-! ### S0: the document and undo components do not depend on the summary -/
+
+theorem docAction_doc_indep_summary (d : Doc) (s s' : Summary) (a : DocAction) :
+    (docAction d s a).map (fun r => (r.doc, r.undo)) =
+      (docAction d s' a).map (fun r => (r.doc, r.undo)) := by
+  cases a <;> simp only [docAction] <;> (repeat' split) <;> rfl
+
+theorem docAction_ok_indep_summary {d : Doc} {s : Summary} (s' : Summary) {a : DocAction}
+    {r : DAResult} (h : docAction d s a = .ok r) :
+    ∃ r', docAction d s' a = .ok r' ∧ r'.doc = r.doc ∧ r'.undo = r.undo :=
+  ok_of_post s' (post_of_ok h)
+
+/-- `applyAll` (empty summary at every step) replays exactly what `stepDoc` does to the document. -/
+theorem stepDoc_doc_eq_applyAll {st st1 : EState} {a : DocAction} {dir : Bool}
+    (h : stepDoc st a dir = .ok st1) : applyAll st.doc [a] = .ok st1.doc := by
+  obtain ⟨r, hr, hd, _⟩ := stepDoc_ok h
+  simp [applyAll, hr, hd]
+
+/-! ### S1: well-formedness is preserved -/
+
+/-- FALSE without `colsDistinct`: see `addTable_dup_not_WF` below. -/
+theorem docAction_WF_partial {d : Doc} {s : Summary} {a : DocAction} {r : DAResult} (hwf : WF d)
+    (hpos : a.rowsPositive) (hcd : a.colsDistinct) (h : docAction d s a = .ok r) : WF r.doc :=
+  (post_WF_Normal hwf hpos hcd (post_of_ok h)).1
+
+/-- every constructor except AddTable: no extra hypothesis -/
+theorem docAction_WF {d : Doc} {s : Summary} {a : DocAction} {r : DAResult} (hwf : WF d)
+    (hpos : a.rowsPositive) (hna : ∀ t cols, a ≠ .addTable t cols)
+    (h : docAction d s a = .ok r) : WF r.doc := by
+  apply docAction_WF_partial hwf hpos _ h
+  cases a <;> first | trivial | exact absurd rfl (hna _ _)
+
+theorem docAction_Normal {d : Doc} {s : Summary} {a : DocAction} {r : DAResult} (hwf : WF d)
+    (hn : Normal d) (hpos : a.rowsPositive) (hcd : a.colsDistinct) (h : docAction d s a = .ok r) :
+    Normal r.doc :=
+  (post_WF_Normal hwf hpos hcd (post_of_ok h)).2 hn
+
+/-- counterexample to S1 as first stated: AddTable naming a column twice -/
+theorem addTable_dup_not_WF (info : ColInfo) :
+    ∃ r, docAction [] {} (.addTable "T" [("A", info), ("A", info)]) = .ok r ∧ WF [] ∧ ¬ WF r.doc := by
+  refine ⟨_, rfl, ⟨by simp, by simp⟩, ?_⟩
+  intro h
+  have := (h.2 _ (List.mem_singleton.2 rfl)).1
+  simp at this
+
+/-! ### S2: replaying the undo of one action restores the document -/
+
+/-- All 11 constructors.  `Normal d` is needed (BulkRemove, BulkUpdate, ReplaceTableData,
+    RemoveColumn, RemoveTable re-write old values through `Column.set`); `undoExact` is `True` for
+    every constructor except ReplaceTableData, RemoveColumn (formula columns must be all default)
+    and ModifyColumn (`colSet old (colSet new v) = v` at the rows). -/
+theorem docAction_undo_partial {d : Doc} {s : Summary} {a : DocAction} {r : DAResult} (hwf : WF d)
+    (hn : Normal d) (hpos : a.rowsPositive) (hex : a.undoExact d) (h : docAction d s a = .ok r) :
+    ∃ d'', applyAll r.doc r.undo.reverse = .ok d'' ∧ Same d'' d :=
+  post_undo hwf hn hpos hex (post_of_ok h)
+
+/-- constructors whose undo is exact with `WF` alone -/
+theorem bulkAdd_undo {d : Doc} {s : Summary} {t : String} {rows : List Nat}
+    {cols : List (String × List Val)} {r : DAResult} (hwf : WF d) (hpos : ∀ x ∈ rows, 0 < x)
+    (h : docAction d s (.bulkAdd t rows cols) = .ok r) :
+    ∃ d'', applyAll r.doc r.undo.reverse = .ok d'' ∧ Same d'' d :=
+  undo_bulkAdd hwf hpos (post_of_ok h)
+
+theorem addColumn_undo {d : Doc} {s : Summary} {t c : String} {info : ColInfo} {r : DAResult}
+    (h : docAction d s (.addColumn t c info) = .ok r) :
+    ∃ d'', applyAll r.doc r.undo.reverse = .ok d'' ∧ Same d'' d :=
+  undo_addColumn (post_of_ok h)
+
+theorem renameColumn_undo {d : Doc} {s : Summary} {t old new : String} {r : DAResult}
+    (h : docAction d s (.renameColumn t old new) = .ok r) :
+    ∃ d'', applyAll r.doc r.undo.reverse = .ok d'' ∧ Same d'' d :=
+  undo_renameColumn (post_of_ok h)
+
+theorem addTable_undo {d : Doc} {s : Summary} {t : String} {cols : List (String × ColInfo)}
+    {r : DAResult} (h : docAction d s (.addTable t cols) = .ok r) :
+    ∃ d'', applyAll r.doc r.undo.reverse = .ok d'' ∧ Same d'' d :=
+  undo_addTable (post_of_ok h)
+
+theorem renameTable_undo {d : Doc} {s : Summary} {old new : String} {r : DAResult}
+    (h : docAction d s (.renameTable old new) = .ok r) :
+    ∃ d'', applyAll r.doc r.undo.reverse = .ok d'' ∧ Same d'' d :=
+  undo_renameTable (post_of_ok h)
+
+/-- constructors that need `Normal` -/
+theorem bulkRemove_undo_partial {d : Doc} {s : Summary} {t : String} {rows : List Nat} {r : DAResult}
+    (hwf : WF d) (hn : Normal d) (h : docAction d s (.bulkRemove t rows) = .ok r) :
+    ∃ d'', applyAll r.doc r.undo.reverse = .ok d'' ∧ Same d'' d :=
+  undo_bulkRemove hwf hn (post_of_ok h)
+
+theorem bulkUpdate_undo_partial {d : Doc} {s : Summary} {t : String} {rows : List Nat}
+    {cols : List (String × List Val)} {r : DAResult} (hwf : WF d) (hn : Normal d)
+    (h : docAction d s (.bulkUpdate t rows cols) = .ok r) :
+    ∃ d'', applyAll r.doc r.undo.reverse = .ok d'' ∧ Same d'' d :=
+  undo_bulkUpdate hwf hn (post_of_ok h)
+
+theorem removeTable_undo_partial {d : Doc} {s : Summary} {t : String} {r : DAResult}
+    (hwf : WF d) (hn : Normal d) (h : docAction d s (.removeTable t) = .ok r) :
+    ∃ d'', applyAll r.doc r.undo.reverse = .ok d'' ∧ Same d'' d :=
+  undo_removeTable hwf hn (post_of_ok h)
+
+/-- ReplaceTableData: formula columns of the table must be all default (they are not in the undo) -/
+theorem replaceData_undo_partial {d : Doc} {s : Summary} {t : String} {rows : List Nat}
+    {cols : List (String × List Val)} {r : DAResult} (hwf : WF d) (hn : Normal d)
+    (hpos : ∀ x ∈ rows, 0 < x)
+    (hex : ∀ tb, findTable? d t = some tb → ∀ col ∈ tb.cols, col.info.isFormula = true →
+      ∀ x ∈ tb.rows, col.cells x = typeDefault col.info.type)
+    (h : docAction d s (.replaceData t rows cols) = .ok r) :
+    ∃ d'', applyAll r.doc r.undo.reverse = .ok d'' ∧ Same d'' d :=
+  undo_replaceData hwf hn hpos hex (post_of_ok h)
+
+/-- RemoveColumn of a data column (or of an all-default formula column) -/
+theorem removeColumn_undo_partial {d : Doc} {s : Summary} {t c : String} {r : DAResult}
+    (hwf : WF d) (hn : Normal d)
+    (hex : ∀ tb col, findTable? d t = some tb → tb.findCol? c = some col →
+      col.info.isFormula = true → ∀ x ∈ tb.rows, col.cells x = typeDefault col.info.type)
+    (h : docAction d s (.removeColumn t c) = .ok r) :
+    ∃ d'', applyAll r.doc r.undo.reverse = .ok d'' ∧ Same d'' d :=
+  undo_removeColumn hwf hn hex (post_of_ok h)
+
+/-- ModifyColumn: the undo restores the schema; the cells come back as
+    `colSet oldType (colSet newType v)`, so the restoration is exact when that is `v`. -/
+theorem modifyColumn_undo_partial {d : Doc} {s : Summary} {t c : String} {p : ColPatch}
+    {r : DAResult}
+    (hex : ∀ tb col, findTable? d t = some tb → tb.findCol? c = some col → ∀ x ∈ tb.rows,
+      colSet col.info.type (colSet (colInfoOfPatch col.info p).type (col.cells x)) = col.cells x)
+    (h : docAction d s (.modifyColumn t c p) = .ok r) :
+    ∃ d'', applyAll r.doc r.undo.reverse = .ok d'' ∧ Same d'' d :=
+  undo_modifyColumn hex (post_of_ok h)
+
+/-- in particular when the patch leaves the type alone and the cells are normalised -/
+theorem modifyColumn_undoExact_of_type_unchanged {d : Doc} {t c : String} {p : ColPatch}
+    (hn : Normal d) (hty : p.type = none) : (DocAction.modifyColumn t c p).undoExact d := by
+  intro tb col hf hc r _
+  have : (colInfoOfPatch col.info p).type = col.info.type := by simp [colInfoOfPatch, hty]
+  rw [this, colSet_idem]
+  exact hn.table hf col (findCol?_some hc).2 r
+
+def cexInfo (ty : String) : ColInfo :=
+  { type := ty, isFormula := false, formula := "", reverseColId := none }
+
+def cexDoc (ty : String) : Doc :=
+  [{ id := "T", rows := [1],
+     cols := [{ id := "A", info := cexInfo ty,
+                cells := fun r => if r = 1 then .int 1 else typeDefault ty }] }]
+
+/-- counterexample to S2 with `WF` alone: a Bool column (any type `ty` whose pure type is "Bool")
+    holding `int 1`; BulkUpdate then its undo leaves `bool true`. -/
+theorem bulkUpdate_undo_needs_Normal (ty : String) (hty : pureType ty = "Bool") :
+    ∃ (d : Doc) (r : DAResult) (d'' : Doc), WF d ∧
+      docAction d {} (.bulkUpdate "T" [1] [("A", [.int 0])]) = .ok r ∧
+      applyAll r.doc r.undo.reverse = .ok d'' ∧ ¬ Same d'' d := by
+  have hwf : WF (cexDoc ty) := by
+    refine ⟨by simp [cexDoc], ?_⟩
+    intro tb htb
+    simp only [cexDoc, List.mem_singleton] at htb
+    subst htb
+    refine ⟨by simp, by simp, by simp, ?_⟩
+    intro col hcol r hr
+    simp only [List.mem_singleton] at hcol
+    subst hcol
+    have : r ≠ 1 := by simpa using hr
+    simp [this, cexInfo]
+  refine ⟨cexDoc ty, _, _, hwf, rfl, rfl, ?_⟩
+  intro hs
+  have := hs "T"
+  simp only [findTable?, cexDoc, List.find?_cons, beq_self_eq_true, replaceTable, List.map_cons,
+    List.map_nil, ↓reduceIte] at this
+  have h2 := this.2 "A"
+  simp only [Table.findCol?, Table.replaceCol, List.map_cons, List.map_nil, List.find?_cons,
+    beq_self_eq_true, ↓reduceIte] at h2
+  have h3 := h2.2 1 (by simp)
+  simp [setCells, setCell, colSet, hty, cexInfo] at h3
+
+/-! ### S3: doc actions respect observational equality -/
+
+/-- `UndoEqv` (GristProofs/DocUndoEqv.lean): the two undo lists have the same length and agree
+    action by action up to the order (`List.Perm`) of the per-column entries inside BulkAddRecord /
+    ReplaceTableData / AddTable (`DocAction.Eqv`); all other undo actions are equal.
+    (S4 does not need the undo part: it replays ONE undo list on `Same` documents.) -/
+theorem docAction_congr {d1 d2 : Doc} {s : Summary} {a : DocAction} {r1 : DAResult} (hw1 : WF d1)
+    (hw2 : WF d2) (hs : Same d1 d2) (hpos : a.rowsPositive) (h : docAction d1 s a = .ok r1) :
+    ∃ r2, docAction d2 s a = .ok r2 ∧ Same r1.doc r2.doc ∧ UndoEqv r1.undo r2.undo := by
+  obtain ⟨D2, U2, hp2, hs'⟩ := post_congr hw1 hw2 hs hpos (post_of_ok h)
+  obtain ⟨r2, hr2, hd2, hu2⟩ := ok_of_post s hp2
+  refine ⟨r2, hr2, by rw [hd2]; exact hs', ?_⟩
+  rw [hu2]
+  exact post_undo_eqv hw1 hw2 hs (post_of_ok h) hp2
+
+theorem applyAll_congr' {l : List DocAction} {d1 d2 x : Doc} (hw1 : WF d1) (hw2 : WF d2)
+    (hs : Same d1 d2) (hl : ∀ a ∈ l, a.rowsPositive ∧ a.colsDistinct) (h : applyAll d1 l = .ok x) :
+    ∃ y, applyAll d2 l = .ok y ∧ Same x y :=
+  applyAll_congr hw1 hw2 hs hl h
+
+/-! ### S4: lists of actions -/
+
+/-- constructors whose undo is exact in every (well-formed, normalised) document -/
+def DocAction.undoSafe : DocAction → Prop
+  | .replaceData _ _ _ => False
+  | .removeColumn _ _ => False
+  | .modifyColumn _ _ _ => False
+  | _ => True
+
+theorem undoExact_of_safe {a : DocAction} (h : a.undoSafe) (d : Doc) : a.undoExact d := by
+  cases a <;> first | trivial | exact h.elim
+
+theorem undoExactRun_of_safe {as : List DocAction} (h : ∀ a ∈ as, a.undoSafe) :
+    ∀ d, undoExactRun d as := by
+  induction as with
+  | nil => intro d; trivial
+  | cons a rest ih =>
+    intro d
+    exact ⟨undoExact_of_safe (h a (by simp)) d, fun r _ =>
+      ih (fun b hb => h b (List.mem_cons_of_mem _ hb)) r.doc⟩
+
+/-- `undoExactRun d as`: each action is applied in a document where its undo is exact
+    (`DocAction.undoExact`, threaded through the run). -/
+theorem runActs_undo_partial {as : List DocAction} {d d' : Doc} {u : List DocAction} (hwf : WF d)
+    (hn : Normal d) (hargs : ∀ a ∈ as, a.rowsPositive ∧ a.colsDistinct) (hex : undoExactRun d as)
+    (h : runActs d as = .ok (d', u)) :
+    ∃ d'', applyAll d' u.reverse = .ok d'' ∧ Same d'' d :=
+  (runActs_undo_full hwf hn hargs hex h).2.2.2
+
+/-- syntactic version: BulkAdd/Remove/Update, AddColumn, RenameColumn, AddTable, RemoveTable,
+    RenameTable in any order -/
+theorem runActs_undo_safe {as : List DocAction} {d d' : Doc} {u : List DocAction} (hwf : WF d)
+    (hn : Normal d) (hargs : ∀ a ∈ as, a.rowsPositive ∧ a.colsDistinct)
+    (hsafe : ∀ a ∈ as, a.undoSafe) (h : runActs d as = .ok (d', u)) :
+    ∃ d'', applyAll d' u.reverse = .ok d'' ∧ Same d'' d :=
+  runActs_undo_partial hwf hn hargs (undoExactRun_of_safe hsafe d) h
+
+/-- the run also keeps the invariants -/
+theorem runActs_WF {as : List DocAction} {d d' : Doc} {u : List DocAction} (hwf : WF d)
+    (hn : Normal d) (hargs : ∀ a ∈ as, a.rowsPositive ∧ a.colsDistinct) (hex : undoExactRun d as)
+    (h : runActs d as = .ok (d', u)) : WF d' ∧ Normal d' :=
+  ⟨(runActs_undo_full hwf hn hargs hex h).1, (runActs_undo_full hwf hn hargs hex h).2.1⟩
+
+/-! ### S5 (C04): rollback to a checkpoint restores the state -/
+
+theorem rollback_restores {st st' : EState} {steps : List (DocAction × Bool)}
+    (hwf : WF st.doc) (hn : Normal st.doc) (hlen : st.stored.length = st.direct.length)
+    (hargs : ∀ ab ∈ steps, ab.1.rowsPositive ∧ ab.1.colsDistinct)
+    (hex : undoExactRun st.doc (steps.map (·.1)))
+    (h : stepDocs st steps = .ok st') :
+    ∃ st'', rollback st' st.stored.length st.undo.length = .ok st'' ∧ Same st''.doc st.doc ∧
+      st''.stored = st.stored ∧ st''.direct = st.direct ∧ st''.undo = st.undo :=
+  rollback_restores_full hwf hn hlen hargs hex h
+
+/-! ### a concrete document and run: the hypotheses are satisfiable, the run computes
+
+Cells are functions and `typeDefault`/`colSet` go through `String.splitOn` (not kernel-reducible),
+so the example uses string cells (fixed by every `colSet`) and actions whose evaluation does not
+compare against type defaults; `runActs`/`stepDocs` are evaluated by `rfl`. -/
+
+def exInfo : ColInfo := { type := "Text", isFormula := false, formula := "", reverseColId := none }
+
+def exDoc : Doc :=
+  [ { id := "T", rows := [1, 2],
+      cols := [{ id := "A", info := exInfo,
+                 cells := fun r => if r = 1 then .str "x" else if r = 2 then .str "y"
+                                   else typeDefault "Text" }] },
+    { id := "U", rows := [],
+      cols := [{ id := "B", info := exInfo, cells := fun _ => typeDefault "Text" }] } ]
+
+def exActs : List DocAction :=
+  [ .bulkAdd "T" [3] [("A", [.str "z"])],
+    .bulkUpdate "T" [1, 3] [("A", [.str "w", .str "v"])],
+    .addColumn "T" "C" exInfo,
+    .renameColumn "T" "A" "A2",
+    .addTable "W" [("K", exInfo)],
+    .renameTable "U" "V" ]
+
+theorem exDoc_WF : WF exDoc := by
+  refine ⟨by decide, ?_⟩
+  intro tb htb
+  simp only [exDoc, List.mem_cons, List.not_mem_nil, or_false] at htb
+  rcases htb with rfl | rfl
+  · refine ⟨by simp, by simp, by simp, ?_⟩
+    intro col hcol r hr
+    simp only [List.mem_singleton] at hcol
+    subst hcol
+    have h1 : r ≠ 1 := by intro h; subst h; simp at hr
+    have h2 : r ≠ 2 := by intro h; subst h; simp at hr
+    simp [h1, h2, exInfo]
+  · refine ⟨by simp, by simp, by simp, ?_⟩
+    intro col hcol r _
+    simp only [List.mem_singleton] at hcol
+    subst hcol
+    rfl
+
+theorem exDoc_Normal : Normal exDoc := by
+  intro tb htb
+  simp only [exDoc, List.mem_cons, List.not_mem_nil, or_false] at htb
+  rcases htb with rfl | rfl
+  · intro col hcol r
+    simp only [List.mem_singleton] at hcol
+    subst hcol
+    show colSet "Text" (if r = 1 then Val.str "x" else if r = 2 then Val.str "y" else typeDefault "Text")
+      = (if r = 1 then Val.str "x" else if r = 2 then Val.str "y" else typeDefault "Text")
+    by_cases h1 : r = 1
+    · subst h1; simp [colSet_str]
+    · by_cases h2 : r = 2
+      · subst h2; simp [colSet_str]
+      · simp [h1, h2, colSet_typeDefault]
+  · intro col hcol r
+    simp only [List.mem_singleton] at hcol
+    subst hcol
+    exact colSet_typeDefault _
+
+theorem exActs_args : ∀ a ∈ exActs, a.rowsPositive ∧ a.colsDistinct := by
+  intro a ha
+  simp only [exActs, List.mem_cons, List.not_mem_nil, or_false] at ha
+  rcases ha with rfl | rfl | rfl | rfl | rfl | rfl <;>
+    simp [DocAction.rowsPositive, DocAction.colsDistinct]
+
+theorem exActs_safe : ∀ a ∈ exActs, a.undoSafe := by
+  intro a ha
+  simp only [exActs, List.mem_cons, List.not_mem_nil, or_false] at ha
+  rcases ha with rfl | rfl | rfl | rfl | rfl | rfl <;> trivial
+
+/-- S0/S1/S2 on the first action of the example -/
+example : ∃ r, docAction exDoc {} (.bulkAdd "T" [3] [("A", [.str "z"])]) = .ok r ∧
+    r.undo = [.bulkRemove "T" [3]] ∧ WF r.doc ∧ Normal r.doc ∧
+    ∃ d'', applyAll r.doc r.undo.reverse = .ok d'' ∧ Same d'' exDoc := by
+  have h : docAction exDoc {} (.bulkAdd "T" [3] [("A", [.str "z"])]) = .ok _ := rfl
+  have hpos : (DocAction.bulkAdd "T" [3] [("A", [.str "z"])]).rowsPositive := by
+    simp [DocAction.rowsPositive]
+  exact ⟨_, h, rfl, docAction_WF_partial exDoc_WF hpos trivial h,
+    docAction_Normal exDoc_WF exDoc_Normal hpos trivial h,
+    docAction_undo_partial exDoc_WF exDoc_Normal hpos trivial h⟩
+
+/-- S3: the same action on a reordered (observationally equal) document -/
+example : Same exDoc exDoc.reverse ∧ ∃ r1 r2,
+    docAction exDoc {} (.renameColumn "T" "A" "A2") = .ok r1 ∧
+    docAction exDoc.reverse {} (.renameColumn "T" "A" "A2") = .ok r2 ∧ Same r1.doc r2.doc := by
+  have hs : Same exDoc exDoc.reverse := by
+    intro t
+    by_cases h1 : t = "T"
+    · subst h1; exact Table.Same.refl _
+    · by_cases h2 : t = "U"
+      · subst h2; exact Table.Same.refl _
+      · have e1 : findTable? exDoc t = none := by
+          rw [findTable?_none]; intro tb htb
+          simp only [exDoc, List.mem_cons, List.not_mem_nil, or_false] at htb
+          rcases htb with rfl | rfl
+          · exact fun h => h1 h.symm
+          · exact fun h => h2 h.symm
+        have e2 : findTable? exDoc.reverse t = none := by
+          rw [findTable?_none]; intro tb htb
+          simp only [exDoc, List.reverse_cons, List.reverse_nil, List.nil_append,
+            List.cons_append, List.mem_cons, List.not_mem_nil, or_false] at htb
+          rcases htb with rfl | rfl
+          · exact fun h => h2 h.symm
+          · exact fun h => h1 h.symm
+        rw [e1, e2]; trivial
+  refine ⟨hs, _, _, rfl, rfl, ?_⟩
+  have hwr : WF exDoc.reverse := by
+    refine ⟨by decide, fun tb htb => exDoc_WF.2 tb (List.mem_reverse.1 htb)⟩
+  obtain ⟨r2, h2, hs2, _⟩ := docAction_congr (s := {}) (a := .renameColumn "T" "A" "A2") exDoc_WF
+    hwr hs trivial rfl
+  have h2' : docAction exDoc.reverse {} (.renameColumn "T" "A" "A2") = .ok _ := rfl
+  rw [h2'] at h2
+  cases h2
+  exact hs2
+
+/-- S4 on the example: the run succeeds (computed), and replaying its undo list restores `exDoc` -/
+example : ∃ d' u d'', runActs exDoc exActs = .ok (d', u) ∧ u.length = 6 ∧
+    applyAll d' u.reverse = .ok d'' ∧ Same d'' exDoc := by
+  have h : runActs exDoc exActs = .ok (_, _) := rfl
+  obtain ⟨d'', h1, h2⟩ := runActs_undo_safe exDoc_WF exDoc_Normal exActs_args exActs_safe h
+  exact ⟨_, _, d'', h, rfl, h1, h2⟩
+
+/-- S5 on the example: checkpoint at a fresh state, run the six actions, roll back -/
+example : ∃ st' st'', stepDocs { doc := exDoc } (exActs.map (·, true)) = .ok st' ∧
+    st'.stored = exActs ∧ st'.undo.length = 6 ∧
+    rollback st' 0 0 = .ok st'' ∧ Same st''.doc exDoc ∧ st''.stored = [] ∧ st''.direct = [] ∧
+    st''.undo = [] := by
+  have h : stepDocs { doc := exDoc } (exActs.map (·, true)) = .ok _ := rfl
+  have hargs : ∀ ab ∈ exActs.map (·, true), ab.1.rowsPositive ∧ ab.1.colsDistinct := by
+    intro ab hab
+    obtain ⟨a, ha, rfl⟩ := List.mem_map.1 hab
+    exact exActs_args a ha
+  have hex : undoExactRun exDoc ((exActs.map (·, true)).map (·.1)) := by
+    apply undoExactRun_of_safe
+    intro a ha
+    simp only [List.map_map, List.mem_map, Function.comp_apply] at ha
+    obtain ⟨b, hb, rfl⟩ := ha
+    exact exActs_safe b hb
+  obtain ⟨st'', h1, h2, h3, h4, h5⟩ :=
+    rollback_restores (st := { doc := exDoc }) exDoc_WF exDoc_Normal rfl hargs hex h
+  exact ⟨_, st'', h, rfl, rfl, h1, h2, h3, h4, h5⟩
+
 end Grist.Doc
